@@ -88,6 +88,14 @@ M = [
 			continue
 		}
 ''', ''),
+ ('C03-hand-less-ignores-reverse', 'allocator/util/metricsorter.go',
+  '''	if s.reverse {
+		return x > y
+	}
+	return x < y''', '''	if s.reverse {
+		return x < y
+	}
+	return x < y'''),
  # C04
  ('C11-hand-rpc-arg-type-mismatch', 'api/rest/restapi.go',
   '''			"Cluster",
